@@ -4,7 +4,7 @@ Only statements of the property (and non-vacuity examples) live here; helper lem
 Lemmas / Accept / Ops / Laws.  The state machine is `BV.C10.step` (Model.lean): one public mempool
 call or one block connect / disconnect notification handled by netsync.
 -/
-import BV.C10.OrphanIndex
+import BV.C10.Rbf
 import BV.Generated.C10
 namespace BV.C10
 open Spec Lemmas
@@ -177,6 +177,25 @@ theorem replacement_evicts_only_conflicts_and_descendants (pol : Policy) (maturi
     let s := (run pol (State.init maturity mtp0) ops).1.pool
     ∀ e ∈ txConflicts s t, ∃ x ∈ t.ins, ∃ c, s.spender x = some c ∧ (e = c ∨ Reach s c e) :=
   txConflicts_sound (run_ok pol ops _ poolOk_empty) t
+
+/-- a submission that conflicts with pooled transactions is only accepted when replacements are allowed and
+every directly conflicting transaction signals replaceability, explicitly or through a pooled ancestor -/
+theorem replacement_requires_signalling (pol : Policy) (c : Chain) (s : Pool) (t : TxAbs) (isNew rl rdo : Bool)
+    (cs : List TxAbs) (h : checkAccept pol c s t isNew rl rdo = .ok cs) :
+    ∀ x ∈ t.ins, ∀ e, s.spender x = some e →
+      pol.rejectReplacement = false ∧ signalsReplacement (fuelOf s) s e = true := by
+  have hf := checkAccept_ok_inv h
+  rcases hf.repl with ⟨h1, _⟩ | ⟨h1, _⟩ <;> exact checkPoolDoubleSpend_some h1
+
+/-- an accepted replacement spends no new unconfirmed input: every pooled parent of it is also a parent of
+something it evicts -/
+theorem replacement_no_new_unconfirmed_inputs (pol : Policy) (c : Chain) (s : Pool) (t : TxAbs)
+    (isNew rl rdo : Bool) (cs : List TxAbs) (h : checkAccept pol c s t isNew rl rdo = .ok cs) (hne : cs ≠ []) :
+    ∀ x ∈ t.ins, s.inPool x.txid = true → ∃ e ∈ cs, ∃ y ∈ e.ins, y.txid = x.txid := by
+  have hf := checkAccept_ok_inv h
+  rcases hf.repl with ⟨_, h2⟩ | ⟨_, h2⟩
+  · exact absurd h2 hne
+  · exact validateReplacement_parents h2
 
 /-! ### OrphanBounds -/
 
